@@ -205,6 +205,8 @@ def run_tlc(scratch, module, cfg=None, workers=None, timeout=1800, extra=(), mar
         raise Infra("TLC timed out after %ss on %s/%s" % (timeout, module, cfg))
     if "Invariant " in so and " is violated" in so:
         res.violated = re.search(r"Invariant (\S+) is violated", so).group(1)
+    elif re.search(r"Temporal property (\S+) was violated", so):
+        res.violated = re.search(r"Temporal property (\S+) was violated", so).group(1)
     elif "Temporal properties were violated" in so or "Action property" in so and "is violated" in so:
         m = re.search(r"Action property (\S+) is violated", so)
         res.violated = m.group(1) if m else "temporal"
